@@ -1637,4 +1637,287 @@ theorem stepEntry_block (s : State) (e n : String) (b : BErr) (h : (stepEntry s 
         rw [List.find?_append, hf]
         simp
 
+
+/-! ## the reference does not look at the address of a slot-owned result -/
+
+theorem stopper_core (rs : List RSlot) : stopper (rs.map RSlot.core) = (stopper rs).map RSlot.core := by
+  unfold stopper
+  rw [List.find?_map]
+  rfl
+
+theorem ranRules_core (rs : List RSlot) : ranRules (rs.map RSlot.core) = (ranRules rs).map RSlot.core := by
+  unfold ranRules
+  rw [stopper_core, List.map_append]
+  congr 1
+  · induction rs with
+    | nil => rfl
+    | cons s r ih =>
+      simp only [List.map_cons, List.takeWhile_cons]
+      have : (RSlot.core s).beh.passes = s.beh.passes := rfl
+      rw [this]
+      cases s.beh.passes <;> simp [ih]
+  · cases stopper rs <;> rfl
+
+theorem stopOf_core (rs : List RSlot) :
+    (stopOf (rs.map RSlot.core)).blk = (stopOf rs).blk ∧ (stopOf (rs.map RSlot.core)).isPanic = (stopOf rs).isPanic ∧
+    (stopOf (rs.map RSlot.core)).verdict = (stopOf rs).verdict := by
+  unfold stopOf
+  rw [stopper_core]
+  cases stopper rs with
+  | none => exact ⟨rfl, rfl, rfl⟩
+  | some s =>
+    simp only [Option.map_some]
+    have : (RSlot.core s).beh = s.beh := rfl
+    unfold stopOfSlot
+    rw [this]
+    cases s.beh <;> exact ⟨rfl, rfl, rfl⟩
+
+theorem entryPanics_core (ch : ChainDef) : entryPanics ch.core = entryPanics ch := by
+  obtain ⟨h1, h2, _⟩ := stopOf_core ch.rs
+  simp only [entryPanics, ChainDef.core, h1, h2]
+
+theorem specVerdict_core (ch : ChainDef) : specVerdict ch.core = specVerdict ch := by
+  unfold specVerdict
+  rw [entryPanics_core]
+  simp only [ChainDef.core, (stopOf_core ch.rs).2.2]
+
+theorem hooksOfR_core (rs : List RSlot) : hooksOfR (rs.map RSlot.core) = hooksOfR rs := by
+  induction rs with
+  | nil => rfl
+  | cons s r ih => simp only [hooksOfR, List.map_cons, List.flatMap_cons] at ih ⊢; rw [ih]; rfl
+
+theorem specHooks_core (ch : ChainDef) : specHooks ch.core = specHooks ch := by
+  simp only [specHooks, ChainDef.core, ranRules_core, hooksOfR_core]
+
+theorem specEntryCalls_core (ch : ChainDef) : specEntryCalls ch.core = specEntryCalls ch := by
+  simp only [specEntryCalls, ChainDef.core, ranRules_core, (stopOf_core ch.rs).1, List.map_map]
+  rfl
+
+theorem specEntryLog_core (ch : ChainDef) : specEntryLog ch.core = specEntryLog ch := by
+  unfold specEntryLog
+  rw [entryPanics_core, specHooks_core, specEntryCalls_core]
+  simp only [ChainDef.core, (stopOf_core ch.rs).2.2]
+
+theorem blockPanics_core (ch : ChainDef) : blockPanics ch.core = blockPanics ch := by
+  obtain ⟨h1, _, h3⟩ := stopOf_core ch.rs
+  simp only [blockPanics, ChainDef.core, h1, h3]
+
+theorem apiEntry_verdict (ch : ChainDef) (h : Heap) : (apiEntry ch h).2.2.verdict = specVerdict ch := by
+  unfold specVerdict
+  cases hp : entryPanics ch with
+  | true => obtain ⟨c, ks, e⟩ := apiEntry_panics ch h hp; rw [e]; rfl
+  | false =>
+    cases hs : stopOf ch.rs with
+    | allPass => rw [(apiEntry_pass ch h hp hs).2.1]; rfl
+    | block s typ => obtain ⟨_, a, e, _⟩ := apiEntry_block ch h s typ hp hs; rw [e]; rfl
+    | panic => have := (entryPanics_false ch hp).2.1; simp [hs, Stop.isPanic] at this
+
+/-- whenever the reference claims a log for `Entry`, the model produces it -/
+theorem apiEntry_log_spec (ch : ChainDef) (h : Heap) (l : List Call) (hl : specEntryLog ch = some l) :
+    (apiEntry ch h).2.1 = l := by
+  unfold specEntryLog at hl
+  split_ifs at hl with hp hv hk
+  · simp only [Bool.not_eq_true] at hp hk
+    simp only [Option.some.injEq] at hl
+    subst hl
+    cases hs : stopOf ch.rs with
+    | allPass => simp [hs, Stop.verdict] at hv
+    | panic => simp [hs, Stop.verdict] at hv
+    | block s typ => rw [(apiEntry_block ch h s typ hp hs).1, runHandlers_noPanic _ hk]
+  · simp only [Bool.not_eq_true] at hp
+    simp only [Option.some.injEq] at hl
+    subst hl
+    cases hs : stopOf ch.rs with
+    | allPass => exact (apiEntry_pass ch h hp hs).1
+    | panic => have := (entryPanics_false ch hp).2.1; simp [hs, Stop.isPanic] at this
+    | block s typ => simp [hs, Stop.verdict] at hv
+
+/-! ## the `entry` op of the model answers what the reference answers, in every reachable state -/
+
+def NamesAgree (s : State) (s' : SState) : Prop := s.entries.map (·.name) = s'.entries.map (·.name)
+
+theorem find_isSome_names {β : Type} (l : List β) (nm : β → String) (e : String) :
+    (l.find? (fun x => decide (nm x = e))).isSome = decide (e ∈ l.map nm) := by
+  induction l with
+  | nil => simp
+  | cons y ys ih =>
+    rw [List.find?_cons]
+    by_cases h : nm y = e
+    · simp [h]
+    · have : ¬ e = nm y := fun h' => h h'.symm
+      simp [h, ih, this]
+
+theorem NamesAgree.find {s : State} {s' : SState} (h : NamesAgree s s') (e : String) :
+    (findEntry s e).isSome = (s'.findEntry e).isSome := by
+  unfold findEntry SState.findEntry
+  rw [find_isSome_names s.entries (·.name) e, find_isSome_names s'.entries (·.name) e, h]
+
+theorem map_replace_names (l : List EntryRec) (r : EntryRec) :
+    (l.map fun x => if x.name = r.name then r else x).map (·.name) = l.map (·.name) := by
+  induction l with
+  | nil => rfl
+  | cons y ys ih =>
+    simp only [List.map_cons, ih]
+    by_cases h : y.name = r.name <;> simp [h]
+
+theorem smap_replace_names (l : List SEntry) (r : SEntry) :
+    (l.map fun x => if x.name = r.name then r else x).map (·.name) = l.map (·.name) := by
+  induction l with
+  | nil => rfl
+  | cons y ys ih =>
+    simp only [List.map_cons, ih]
+    by_cases h : y.name = r.name <;> simp [h]
+
+theorem stepEntry_matches (s : State) (s' : SState) (e n : String) (hc : ChainsAgree s s') (hn : NamesAgree s s') :
+    (stepEntry s e n).2 = (sstep s' (.entry e n)).2 ∧
+    (∀ l, (sstep s' (.entry e n)).1.lastLog = some l → (stepEntry s e n).1.lastLog = l ∨ (stepEntry s e n).2 = .bad) ∧
+    NamesAgree (stepEntry s e n).1 (sstep s' (.entry e n)).1 := by
+  have hf := hn.find e
+  have hcn := hc n
+  unfold stepEntry
+  simp only [sstep]
+  cases h1 : findEntry s e with
+  | some r =>
+    rw [h1] at hf
+    cases h2 : s'.findEntry e with
+    | none => simp [h2] at hf
+    | some r' => exact ⟨rfl, fun _ _ => Or.inr rfl, hn⟩
+  | none =>
+    rw [h1] at hf
+    cases h2 : s'.findEntry e with
+    | some r' => simp [h2] at hf
+    | none =>
+      cases h3 : findChain s n with
+      | none =>
+        rw [h3] at hcn
+        cases h4 : s'.findChain n with
+        | some _ => simp [h4] at hcn
+        | none => exact ⟨rfl, fun _ _ => Or.inr rfl, hn⟩
+      | some ch =>
+        rw [h3] at hcn
+        cases h4 : s'.findChain n with
+        | none => simp [h4] at hcn
+        | some ins =>
+          rw [h4] at hcn
+          simp only [Option.map_some, Option.some.injEq] at hcn
+          have hcore : ch.core = (specChain ins).core := by rw [hcn, pureChain_eq_spec]
+          have hv : specVerdict (specChain ins) = specVerdict ch := by
+            rw [← specVerdict_core, ← hcore, specVerdict_core]
+          have hl : specEntryLog (specChain ins) = specEntryLog ch := by
+            rw [← specEntryLog_core, ← hcore, specEntryLog_core]
+          have hver := apiEntry_verdict ch s.h
+          have hne := apiEntry_no_escape ch s.h
+          dsimp only
+          rw [hv, hl]
+          unfold recordEntry
+          cases hr : (apiEntry ch s.h).2.2 with
+          | escaped => exact absurd hr hne
+          | passed c ks =>
+            rw [hr] at hver
+            simp only [EntryRes.verdict] at hver
+            rw [← hver]
+            refine ⟨rfl, ?_, ?_⟩
+            · intro l hl'; left; exact apiEntry_log_spec ch s.h l hl'
+            · simp only [NamesAgree, List.map_append, List.map_cons, List.map_nil]; exact congrArg (· ++ [e]) hn
+          | blocked c a b =>
+            rw [hr] at hver
+            simp only [EntryRes.verdict] at hver
+            rw [← hver]
+            refine ⟨rfl, ?_, ?_⟩
+            · intro l hl'; left; exact apiEntry_log_spec ch s.h l hl'
+            · simp only [NamesAgree, List.map_append, List.map_cons, List.map_nil]; exact congrArg (· ++ [e]) hn
+
+
+theorem step_names_model (s : State) (op : Op) (hop : ∀ e n, op ≠ .entry e n) :
+    (step s op).1.entries.map (·.name) = s.entries.map (·.name) := by
+  cases op with
+  | chain n slots => simp only [step, stepChain]; cases findChain s n <;> rfl
+  | add n slot => simp only [step, stepAdd]; cases findChain s n <;> rfl
+  | entry e n => exact absurd rfl (hop e n)
+  | whenexit e id b =>
+    simp only [step, stepWhenExit]
+    cases findEntry s e with
+    | none => rfl
+    | some r =>
+      dsimp only
+      split_ifs
+      · rfl
+      · exact map_replace_names s.entries _
+  | exit e =>
+    simp only [step, stepExit]
+    cases findEntry s e with
+    | none => rfl
+    | some r =>
+      dsimp only
+      by_cases h1 : r.blockAt.isSome = true
+      · simp only [h1, if_true]
+      · by_cases h2 : r.exited = true
+        · simp only [h1, h2, if_true, Bool.false_eq_true, if_false]
+        · simp only [h1, h2, Bool.false_eq_true, if_false]
+          cases findChain s r.chain with
+          | none => rfl
+          | some ch => exact map_replace_names s.entries _
+  | log => rfl
+  | ident e => simp only [step]; cases findEntry s e <;> rfl
+  | blockerr e =>
+    simp only [step, stepBlockErr]
+    cases findEntry s e with
+    | none => rfl
+    | some r => dsimp only; cases r.blockAt <;> rfl
+  | globalorder => rfl
+
+theorem step_names_spec (s : SState) (op : Op) (hop : ∀ e n, op ≠ .entry e n) :
+    (sstep s op).1.entries.map (·.name) = s.entries.map (·.name) := by
+  cases op with
+  | chain n slots => simp only [sstep]; cases s.findChain n <;> rfl
+  | add n slot => simp only [sstep]; cases s.findChain n <;> rfl
+  | entry e n => exact absurd rfl (hop e n)
+  | whenexit e id b =>
+    simp only [sstep]
+    cases s.findEntry e with
+    | none => rfl
+    | some r =>
+      dsimp only
+      split_ifs
+      · rfl
+      · exact smap_replace_names s.entries _
+  | exit e =>
+    simp only [sstep]
+    cases s.findEntry e with
+    | none => rfl
+    | some r =>
+      dsimp only
+      by_cases h1 : r.verdict.isSome = true
+      · simp only [h1, if_true]
+      · by_cases h2 : r.exited = true
+        · simp only [h1, h2, if_true, Bool.false_eq_true, if_false]
+        · simp only [h1, h2, Bool.false_eq_true, if_false]
+          cases s.findChain r.chain with
+          | none => rfl
+          | some ins => exact smap_replace_names s.entries _
+  | log => rfl
+  | ident e => simp only [sstep]; cases s.findEntry e <;> rfl
+  | blockerr e =>
+    simp only [sstep]
+    cases s.findEntry e with
+    | none => rfl
+    | some r => dsimp only; cases r.verdict <;> rfl
+  | globalorder => rfl
+
+theorem step_names (s : State) (s' : SState) (op : Op) (hc : ChainsAgree s s') (hn : NamesAgree s s') :
+    NamesAgree (step s op).1 (sstep s' op).1 := by
+  by_cases h : ∃ e n, op = .entry e n
+  · obtain ⟨e, n, rfl⟩ := h
+    exact (stepEntry_matches s s' e n hc hn).2.2
+  · have h' : ∀ e n, op ≠ .entry e n := fun e n he => h ⟨e, n, he⟩
+    unfold NamesAgree
+    rw [step_names_model s op h', step_names_spec s' op h']
+    exact hn
+
+theorem runOps_agree_names (ops : List Op) (s : State) (s' : SState) (hc : ChainsAgree s s') (hn : NamesAgree s s') :
+    ChainsAgree (runOps s ops) (srunOps s' ops) ∧ NamesAgree (runOps s ops) (srunOps s' ops) := by
+  induction ops generalizing s s' with
+  | nil => exact ⟨hc, hn⟩
+  | cons o r ih => exact ih _ _ (step_agree s s' o hc) (step_names s s' o hc hn)
+
 end Sentinel.Chain
